@@ -89,7 +89,7 @@ def worker(kp, job):
     # every fourth core document lets a spine end before the others (its terminator alone on a row)
     early = 0.35 if (cls == 'core' and idx % 4 == 1) else 0.0
     g = docs.gen_doc(rng, kern_only=(cls != 'mixed'), core=(cls in ('core', 'mixed')), max_spines=3, measures=rng.randint(2, 4),
-                     comments=(idx % 2 == 0), mid_signatures=(cls == 'other'), splits=True, rest_in_chord=0, early_end=early)
+                     comments=(idx % 2 == 0), mid_signatures=(cls == 'other'), splits=True, rest_in_chord=0, early_end=early, tandem_after_barline=(0.4 if idx % 2 == 1 else 0.0))
     text = g.text
     bad = docs.bad_cells(kp, text)
     try:
